@@ -301,6 +301,30 @@ def classify(base, rj, opts):
                 and any(x.get('t') != 'Nested' for x in j['g'])
         if under_negation(base, and_with_nested) or under_negation(rj, and_with_nested):
             return 'shake:and-group-reordered-under-negation'
+    # shake sorts the members of an or-group (searches first, groups after); all()/of() over such a group yield their
+    # first non-true operand, so underneath a negation the changed order is observable (false vs missing)
+    if opts[1]:
+        b_ids = {bytes(k): v for k, v in base['idents']}
+        o_ids = {bytes(k): v for k, v in rj['idents']}
+        b_counted, o_counted = [], []
+
+        def grab(tree, ids, out):
+            def f(j):
+                if j.get('t') == 'Match':
+                    e = j['e']
+                    if e.get('t') == 'Identifier':
+                        e = ids.get(bytes(e['f']))
+                    if e and e.get('t') == 'BooleanGroup':
+                        out.append(e['g'])
+                return False
+            any_node(tree, f)
+        grab(base['expr'], b_ids, b_counted)
+        grab(rj['expr'], o_ids, o_counted)
+        if under_negation(base, lambda j: j.get('t') == 'Match') and len(b_counted) == len(o_counted):
+            for bg, og in zip(b_counted, o_counted):
+                bs, os_ = [json.dumps(x, sort_keys=True) for x in bg], [json.dumps(x, sort_keys=True) for x in og]
+                if bs != os_ and sorted(bs) == sorted(os_):
+                    return 'shake:counted-group-reordered-under-negation'
     # a counted identifier whose entries were merged by shake
     if opts[1] and not opts[0]:
         b_ids = {bytes(k): v for k, v in base['idents']}
@@ -311,6 +335,15 @@ def classify(base, rj, opts):
             b, o = b_ids.get(name), o_ids.get(name)
             if b and o and b.get('t') == 'BooleanGroup' and (o.get('t') != 'BooleanGroup' or len(o['g']) != len(b['g'])):
                 return 'shake:entries-of-counted-identifier-merged'
+    # a counted identifier whose entries were turned into a table by the matrix pass
+    if opts[3] and not opts[0]:
+        o_ids = {bytes(k): v for k, v in rj['idents']}
+        counted = []
+        any_node(base['expr'], lambda j: j.get('t') == 'Match' and j['e'].get('t') == 'Identifier' and counted.append(bytes(j['e']['f'])))
+        for name in counted:
+            o = o_ids.get(name)
+            if o and any_node(o, is_matrix):
+                return 'matrix:entries-of-counted-identifier-tabled'
     if has_matrix:
         return 'matrix'
     return 'shake' if opts[1] else ('rewrite' if opts[2] else 'coalesce')
